@@ -370,6 +370,20 @@ fn signed_case() -> BoxedStrategy<Case> {
                     // a real-looking KB-JWT signed by the EC holder key (sd_hash only right for
                     // deterministic signature algorithms)
                     let mut p = json!({"nonce": nonce.clone().unwrap_or_default(), "aud": aud.clone().unwrap_or_default(), "iat": 1700000000, "sd_hash": sd_hash_of(&jwt_for_hash, &disclosures)});
+                    // the KB-JWT's own time claims: any JSON number (negative, fractional, huge), or junk
+                    match m.pick(12) {
+                        0 => p["iat"] = json!(-1),
+                        1 => p["iat"] = json!(-0.5),
+                        2 => p["iat"] = json!(1e19),
+                        3 => p["iat"] = json!(1.7e308),
+                        4 => p["iat"] = json!(u64::MAX),
+                        5 => p["iat"] = junk.clone(),
+                        6 => {
+                            p["exp"] = json!(-1);
+                            p["nbf"] = json!(1e300);
+                        }
+                        _ => {}
+                    }
                     match m.pick(5) {
                         1 => {
                             p.as_object_mut().unwrap().shift_remove("sd_hash");
@@ -441,6 +455,36 @@ fn issue_case() -> BoxedStrategy<Case> {
                 _ => json!({"a": 1, "zz": { k: v }}),
             };
             c.as_object_mut().unwrap().insert("planted".into(), planted);
+            c
+        }),
+    ];
+    // well-known claim names carrying values that are NOT of their customary format (a date with
+    // month 13, a timestamp that is negative or huge, a flag that is a string): if some code gives
+    // these names a meaning it must still not panic. exp / iat are sometimes left out.
+    let vocab_pairs: Vec<(&'static str, Value)> = vec![
+        ("expirationDate", json!("2030-13-01T00:00:00Z")), ("validUntil", json!("2030-00-10T00:00:00Z")), ("issuanceDate", json!("0000-00-00T00:00:00Z")), ("validFrom", json!("9999-99-99T99:99:99Z")),
+        ("expirationDate", json!("2030-02-30T25:61:61+99:99")), ("birthdate", json!("2024-02-30")), ("birthdate", json!("")), ("updated_at", json!(-1)), ("updated_at", json!(1e300)), ("updated_at", json!("yesterday")),
+        ("email", json!("not-an-email")), ("email", json!("@")), ("email_verified", json!("yes")), ("phone_number", json!(49)), ("locale", json!("")), ("address", json!("one line")), ("address", json!([1])),
+        ("nationalities", json!("DE")), ("nationalities", json!({"0": "DE"})), ("vct", json!(7)), ("vct", json!(null)), ("status", json!("revoked")), ("status", json!({"status_list": {"idx": -1, "uri": 5}})),
+        ("jti", json!(["a"])), ("iat", json!("now")), ("iat", json!(-1)), ("iat", json!(1e300)), ("nbf", json!("soon")), ("exp", json!("never")), ("exp", json!(1e300)), ("sub_jwk", json!({"kty": "EC", "crv": "P-999"})),
+        ("@context", json!([{"_": 1}, 2])), ("type", json!(null)), ("credentialSubject", json!("x")), ("picture", json!("data:;base64,!!!")), ("portrait", json!("data:image/jpeg;base64,")),
+    ];
+    let claims = prop_oneof![
+        12 => claims,
+        2 => (claims_strategy(ClaimCfg::SHORT_F64), proptest::collection::vec(select(vocab_pairs), 1..4), any::<u8>()).prop_map(|(mut c, pairs, drop)| {
+            let o = c.as_object_mut().unwrap();
+            for (k, v) in pairs {
+                o.insert(k.to_string(), v);
+            }
+            if drop & 1 != 0 {
+                o.shift_remove("exp");
+            }
+            if drop & 2 != 0 {
+                o.shift_remove("iat");
+            }
+            if drop & 4 != 0 {
+                o.shift_remove("nbf");
+            }
             c
         }),
     ];
